@@ -8,6 +8,9 @@ import (
 type pendingMsg struct {
 	msgChan   chan Message
 	timestamp time.Time
+	// waiting is set while a caller is blocked on msgChan; such an entry is
+	// never stale, whatever its age.
+	waiting bool
 }
 
 type pendingItem struct {
@@ -30,14 +33,17 @@ func (p pendingQueue) Swap(i, j int) {
 }
 
 func pendingOldest(pending map[string]pendingMsg, num int) pendingQueue {
-	if num > len(pending) {
-		num = len(pending)
-	}
 	queue := make(pendingQueue, 0, len(pending))
 	for key, p := range pending {
+		if p.waiting {
+			continue
+		}
 		queue = append(queue, pendingItem{
 			key, p.timestamp,
 		})
+	}
+	if num > len(queue) {
+		num = len(queue)
 	}
 	sort.Sort(queue)
 	return queue[:num]
